@@ -59,7 +59,10 @@ def smap_cases(rng, i):
             "arr.map": "[1,2,3]", "neg.map": json.dumps({"version": 3, "sources": ["o.ts"], "names": [], "mappings": "AAAA;DDDD;AAgggggggggggC"}),
             "nosrc.map": json.dumps({"version": 3, "sources": [], "names": [], "mappings": "AAAA,CAAC"}), "idx.map": json.dumps({"version": 3, "sections": [{"offset": {"line": 0, "column": 0}, "map": {"version": 3, "sources": ["o.ts"], "names": [], "mappings": "AAAA"}}]}),
             "hermes.map": json.dumps({"version": 3, "sources": ["o.ts"], "names": [], "mappings": "AAAA", "x_facebook_sources": [[{"names": ["a"], "mappings": "AAA"}]]}),
-            "srcidx.map": json.dumps({"version": 3, "sources": ["o.ts"], "names": ["n"], "mappings": "AEAAE"})}
+            "srcidx.map": json.dumps({"version": 3, "sources": ["o.ts"], "names": ["n"], "mappings": "AEAAE"}),
+            # segments without a source (one field) between ordinary ones
+            "sourceless.map": json.dumps({"version": 3, "sources": ["o.ts"], "names": ["n"], "mappings": "A,IAAA,I,I,IAACA,I,I,I,IAAC,I,I,I;A"}),
+            "sourceless2.map": json.dumps({"version": 3, "sources": ["o.ts", "p.ts"], "names": [], "mappings": "A,Q,Q,Q,Q"})}
     name = rng.choice(list(maps))
     file = rng.choice(FILES)
     url = rng.choice([name, "./" + name, "/abs/" + name, "sub/" + name, "../" + name])
